@@ -10,7 +10,7 @@ ID = 'C18'
 LEVEL = 'exploration'
 CASES = {'quick': 6000, 'thorough': 40000}
 CASE_TIMEOUT = 60
-RULE = ('Generated part: a multigraph of 1-8 nodes (thorough 1-10; junctions with demand >= 0, reservoirs, tanks) and '
+RULE = ('Generated part: a multigraph of 1-8 nodes (thorough 1-10; junctions with demands 0 .. 10 scaled by 1 .. 1e-9, some negative; reservoirs, tanks) and '
         '0-10 links (thorough 0-14; pipes with length, pumps, valves; no self loops; parallel links in both '
         'orientations, dead ends and isolated nodes arise by construction), four naming schemes (disjoint, node '
         'names == link names, names that already carry the N_/L_ prefixes the implementation adds), built as a real '
@@ -31,7 +31,8 @@ ASSUMPTIONS = [
     'num_surround counts the other valves whose link or whose node lies in one of the two segments (a valve '
     'inside a loop of the segment counts); relative gain = smaller/larger of the two segment totals, 0 when both '
     'totals are 0',
-    'demands are non-negative and given for junctions only (as average_expected_demand does), lengths for pipes '
+    'demands are given for junctions only (as average_expected_demand does; one case in six has negative entries = '
+    'inflow junctions, and a valve with a negative segment total is not judged on demand_increase), lengths for pipes '
     'only (as query_link_attribute("length") does); missing entries count as 0',
     'the documented work flow passes the same valve_layer object first to valve_segments and then to '
     'valve_segment_attributes; that second call must succeed and describe the valves of the layer as it then is',
@@ -106,13 +107,22 @@ def ref_attributes(rows, roots, n_nodes, ends, node_dem, link_len):
     def ratio(x, y):
         if x == 0 and y == 0:
             return 0.0
+        if x < 0 or y < 0:
+            return None         # negative segment total (net inflow): 'relative gain' is not defined by the statement
         return min(x, y) / max(x, y)
+
+    def slack(tab, ra, rb):
+        # cancellation among members of opposite sign: rounding of the sums relative to the larger total
+        big = max(total(tab, ra), total(tab, rb))
+        if big <= 0:
+            return 0.0
+        return 4e-16 * len(tab.get(ra, []) + tab.get(rb, [])) * math.fsum(abs(v) for v in tab.get(ra, []) + tab.get(rb, [])) / big
 
     out = []
     for i, (j, e) in enumerate(rows):
         rl, rn = roots[n_nodes + j], roots[ends[j][e]]
         if rl == rn:
-            out.append({'same': True, 'rows': 0, 'distinct': 0, 'dem': 0.0, 'len': 0.0})
+            out.append({'same': True, 'rows': 0, 'distinct': 0, 'dem': 0.0, 'len': 0.0, 'dem_slack': 0.0, 'len_slack': 0.0})
             continue
         both = (rl, rn)
         n_rows, pairs = 0, set()
@@ -124,8 +134,8 @@ def ref_attributes(rows, roots, n_nodes, ends, node_dem, link_len):
                 if (j2, e2) != (j, e):
                     pairs.add((j2, e2))
         out.append({'same': False, 'rows': n_rows, 'distinct': len(pairs),
-                    'dem': ratio(total(seg_d, rl), total(seg_d, rn)),
-                    'len': ratio(total(seg_l, rl), total(seg_l, rn))})
+                    'dem': ratio(total(seg_d, rl), total(seg_d, rn)), 'dem_slack': slack(seg_d, rl, rn),
+                    'len': ratio(total(seg_l, rl), total(seg_l, rn)), 'len_slack': 0.0})
     return out
 
 
@@ -301,7 +311,9 @@ def _check_attrs(c, rows, roots, attr, strict):
             if vals is None:
                 continue
             g = vals[i]
-            if not (isinstance(g, (int, float)) and abs(float(g) - e[key]) <= RATIO_TOL):
+            if e[key] is None:
+                continue
+            if not (isinstance(g, (int, float)) and abs(float(g) - e[key]) <= RATIO_TOL + e[key + '_slack']):
                 kind = 'same_segment' if e['same'] else 'ratio'
                 return ('%s/%s' % (name, kind), '%s=%r, reference %r; %s' % (name, g, e[key], where))
     return None
@@ -418,6 +430,8 @@ def check(case):
         mx = max([d for k, d in c.nodes if k == 'J'] or [0.0])
         if 0.0 < mx < 1e-4:
             tags.add('attr:demand_all_below_1e-4')
+        if any(d < 0 for k, d in c.nodes if k == 'J'):
+            tags.add('attr:negative_demand_entries')
     if c.length is not None:
         tags.add('attr:length')
     incid = [(j, e) for j in range(c.m) for e in (0, 1)]
@@ -481,6 +495,11 @@ def strategy(draw, tier='quick'):
     dscale = draw(st.sampled_from([1.0, 1.0, 1.0, 1e-3, 1e-5, 1e-7, 1e-9]))
     for nd in nodes:
         nd[1] *= dscale
+    if draw(st.integers(0, 5)) == 0:
+        # junctions modelling an inflow (negative base demand) appear in average_expected_demand with their sign
+        for nd in nodes:
+            if nd[0] == 'J' and draw(st.integers(0, 2)) == 0:
+                nd[1] = -0.3 * nd[1]
     links = []
     if n >= 2:
         m = draw(st.integers(1, 14 if big else 10))
